@@ -18,6 +18,7 @@ import (
 )
 
 type thread struct {
+	paused  bool // stopped at an explicit yield (verifYield) under verifYieldChoice: resumed by a decision only
 	id      int
 	resume  chan struct{}
 	done    bool
@@ -26,6 +27,10 @@ type thread struct {
 }
 
 type scheduler struct {
+	timers     []*chanv // pending time.After channels (fire when every thread is blocked)
+	noBackground bool   // schedule `go` threads of the code under test like harness threads
+	choiceAtYields bool // at an explicit yield (verifYield) every runnable thread may be chosen, background ones included
+	atExplicit   bool
 	preemptAll bool
 	explicit   bool
 	threads   []*thread
@@ -44,6 +49,7 @@ type chanv struct {
 	taken  int // number of items received so far (for rendezvous)
 	sent   int
 	recvWaiters int
+	timer  bool // a time.After channel that has not fired yet
 }
 
 func (x *executor) sched() *scheduler {
@@ -75,11 +81,14 @@ func (s *scheduler) yield(cond func() bool, why string) {
 	if !s.preemptAll && !s.explicit && (cond == nil || cond()) {
 		return
 	}
+	s.atExplicit = s.explicit
 	s.explicit = false
 	me := s.cur
 	me.enabled = cond
+	me.paused = s.atExplicit && s.choiceAtYields
 	s.dispatch(me, why)
 	me.enabled = nil
+	me.paused = false
 }
 
 // dispatch picks the next thread and transfers the baton. It returns when me is resumed.
@@ -88,6 +97,18 @@ func (s *scheduler) dispatch(me *thread, why string) {
 		panic(pathEnd{"path is being torn down"})
 	}
 	r := s.runnable()
+	for len(r) == 0 && len(s.timers) > 0 {
+		// nobody can run: time passes, a pending timer fires (which one is a decision)
+		k := 0
+		if len(s.timers) > 1 {
+			k = X.choose(fmt.Sprintf("timer:%d", len(s.timers)), len(s.timers))
+		}
+		t := s.timers[k]
+		s.timers = append(s.timers[:k:k], s.timers[k+1:]...)
+		t.timer = false
+		t.buf = append(t.buf, zero(X.timeType))
+		r = s.runnable()
+	}
 	if len(r) == 0 {
 		// deadlock: nobody can run
 		s.dead = true
@@ -96,7 +117,35 @@ func (s *scheduler) dispatch(me *thread, why string) {
 		panic(targetRuntimeError("deadlock: all logical threads are blocked (" + why + ")"))
 	}
 	var next *thread
-	if bg := s.background(r); bg != nil {
+	s.atExplicit = false
+	if s.choiceAtYields {
+		// threads stopped at an explicit yield wait for a decision; the others go on eagerly (background ones first)
+		var paused, eager []*thread
+		for _, t := range r {
+			if t.paused {
+				paused = append(paused, t)
+			} else {
+				eager = append(eager, t)
+			}
+		}
+		var cont *thread // who continues if no paused thread is resumed
+		if bg := s.background(eager); bg != nil {
+			cont = bg
+		} else if len(eager) > 0 {
+			cont = eager[0]
+			if len(eager) > 1 {
+				cont = eager[X.choose(fmt.Sprintf("sched@%s:%d", why, len(eager)), len(eager))]
+			}
+		}
+		opts := paused
+		if cont != nil {
+			opts = append([]*thread{cont}, paused...)
+		}
+		next = opts[0]
+		if len(opts) > 1 {
+			next = opts[X.choose(fmt.Sprintf("resume@%s:%d", why, len(opts)), len(opts))]
+		}
+	} else if bg := s.background(r); bg != nil {
 		next = bg
 	} else if len(r) == 1 {
 		next = r[0]
@@ -121,7 +170,7 @@ func (s *scheduler) dispatch(me *thread, why string) {
 // up the baton, without a scheduling decision: in the harnesses that rely on this they only drain a channel of their
 // own (the VM's Printer) and commute with everything else.
 func (s *scheduler) background(r []*thread) *thread {
-	if s.preemptAll {
+	if s.preemptAll || s.noBackground {
 		return nil
 	}
 	for _, t := range r {
